@@ -27,6 +27,11 @@ Section Confine.
   Variable o : opts.
   Let root := rootstr rs.
 
+  (* [NameOk] holds of the Name of every node the decoder yields; a place is an ENTRY PLACE if it is
+     what the kernel makes of filepath.Join(root, Name) for such a Name *)
+  Variable NameOk : bytes -> Prop.
+  Definition entry_place (p : path) : Prop := exists name, NameOk name /\ dst_of root name = rootstr p.
+
   (* ---------- a run of updates at one place ---------- *)
 
   Inductive chain (P : path) : wstate -> wstate -> Prop :=
@@ -46,7 +51,7 @@ Section Confine.
 
   Definition safe (st st' : wstate) : Prop :=
     (forall q, beneath rs q = false -> stat q (w_fs st') = stat q (w_fs st)) /\
-    (exists t, w_touched st' = w_touched st ++ t /\ Forall (fun p => beneath rs p = true) t).
+    (exists t, w_touched st' = w_touched st ++ t /\ Forall (fun p => beneath rs p = true /\ entry_place p) t).
 
   Lemma safe_refl st : safe st st.
   Proof. split; [reflexivity|]. exists []. now rewrite app_nil_r. Qed.
@@ -58,13 +63,13 @@ Section Confine.
     - exists (t1 ++ t2). split; [now rewrite T2, T1, app_assoc|]. apply Forall_app. now split.
   Qed.
 
-  Lemma chain_safe P st st' : beneath rs P = true -> chain P st st' -> safe st st'.
+  Lemma chain_safe P st st' : beneath rs P = true -> entry_place P -> chain P st st' -> safe st st'.
   Proof.
-    intros B. induction 1 as [st|st fs' st'' f U C IH]; [apply safe_refl|].
+    intros B EP. induction 1 as [st|st fs' st'' f U C IH]; [apply safe_refl|].
     eapply safe_trans; [|exact IH]. split; cbn [w_fs w_touched].
     - intros q Hq. apply (upd_frame _ _ _ _ U).
       destruct (is_prefix P q) eqn:E; [|reflexivity]. unfold beneath in *. now rewrite (is_prefix_trans _ _ _ B E) in Hq.
-    - exists [P]. split; [reflexivity|]. constructor; [exact B|constructor].
+    - exists [P]. split; [reflexivity|]. constructor; [split; [exact B|exact EP]|constructor].
   Qed.
 
   Lemma chain_keeps_dir P d st st' : is_prefix P d = false -> chain P st st' ->
@@ -318,6 +323,7 @@ Section Confine.
 
   (* a named entry below a chain of real directories *)
   Lemma write_named cs0 nd base dir' st :
+    NameOk (node_name nd) ->
     Forall real_elem cs0 -> real_elem base -> node_name nd = rel (cs0 ++ [base]) ->
     dir' = rel (if is_dir_node nd then cs0 ++ [base] else cs0) ->
     is_dir_at (rs ++ cs0) (w_fs st) ->
@@ -325,67 +331,69 @@ Section Confine.
     (snd (write_node o root nd st) = None ->
      exists cs', dir' = rel cs' /\ Forall real_elem cs' /\ is_dir_at (rs ++ cs') (w_fs (fst (write_node o root nd st)))).
   Proof.
-    intros F0 Rb Hname Hdir HD.
+    intros HQ F0 Rb Hname Hdir HD.
     assert (Fn : Forall real_elem (cs0 ++ [base])) by (apply Forall_app; split; [exact F0|constructor; [exact Rb|constructor]]).
     set (P := rs ++ cs0 ++ [base]).
     assert (P_ne : P <> []) by (unfold P; destruct rs; [congruence|discriminate]).
     assert (P_real : Forall real_elem P) by (unfold P; apply Forall_app; split; [exact rs_real|exact Fn]).
     assert (Hd : dst_of root (node_name nd) = rootstr P) by (rewrite Hname; now apply dst_rel).
     assert (BP : beneath rs P = true) by apply beneath_root_app.
+    assert (EPl : entry_place P) by (exists (node_name nd); split; [exact HQ|exact Hd]).
     assert (EP : P = (rs ++ cs0) ++ [base]) by (unfold P; now rewrite app_assoc).
     assert (Hp : parent_ok P (w_fs st)) by (unfold parent_ok; rewrite EP, removelast_last; exact HD).
     assert (Hlong : is_prefix P (rs ++ cs0) = false) by (rewrite EP; apply is_prefix_longer).
     assert (Keep : forall st', chain P st st' -> is_dir_at (rs ++ cs0) (w_fs st')).
     { intros st' C. exact (chain_keeps_dir P _ _ _ Hlong C HD). }
     destruct nd as [nm m|nm m data|nm m target|nm m major minor]; cbn [node_name is_dir_node] in *; cbn [write_node].
-    - destruct (T_create_dir P P_ne P_real nm Hd m st Hp I) as [C Q]. split; [exact (chain_safe P _ _ BP C)|].
+    - destruct (T_create_dir P P_ne P_real nm Hd m st Hp I) as [C Q]. split; [exact (chain_safe P _ _ BP EPl C)|].
       intros E. exists (cs0 ++ [base]). split; [exact Hdir|]. split; [exact Fn|].
       apply kind_dir_iff. exact (Q E).
-    - destruct (T_create_file P P_ne P_real nm Hd m data st Hp I) as [C Q]. split; [exact (chain_safe P _ _ BP C)|].
+    - destruct (T_create_file P P_ne P_real nm Hd m data st Hp I) as [C Q]. split; [exact (chain_safe P _ _ BP EPl C)|].
       intros _. exists cs0. split; [exact Hdir|]. split; [exact F0|exact (Keep _ C)].
-    - destruct (T_create_symlink P P_ne P_real nm Hd m target st Hp I) as [C Q]. split; [exact (chain_safe P _ _ BP C)|].
+    - destruct (T_create_symlink P P_ne P_real nm Hd m target st Hp I) as [C Q]. split; [exact (chain_safe P _ _ BP EPl C)|].
       intros _. exists cs0. split; [exact Hdir|]. split; [exact F0|exact (Keep _ C)].
-    - destruct (T_create_device P P_ne P_real nm Hd m st Hp I) as [C Q]. split; [exact (chain_safe P _ _ BP C)|].
+    - destruct (T_create_device P P_ne P_real nm Hd m st Hp I) as [C Q]. split; [exact (chain_safe P _ _ BP EPl C)|].
       intros _. exists cs0. split; [exact Hdir|]. split; [exact F0|exact (Keep _ C)].
   Qed.
 
   (* the nameless first entry: written AT the destination path *)
   Lemma write_root nd st :
-    node_name nd = rel [] -> parent_ok rs (w_fs st) ->
+    NameOk (node_name nd) -> node_name nd = rel [] -> parent_ok rs (w_fs st) ->
     safe st (fst (write_node o root nd st)) /\
     (snd (write_node o root nd st) = None -> is_dir_node nd = true -> is_dir_at rs (w_fs (fst (write_node o root nd st)))).
   Proof.
-    intros Hname Hp.
+    intros HQ Hname Hp.
     assert (Hd : dst_of root (node_name nd) = rootstr rs).
     { rewrite Hname. rewrite (dst_rel []) by constructor. now rewrite app_nil_r. }
     assert (BP : beneath rs rs = true) by apply is_prefix_refl.
+    assert (EPl : entry_place rs) by (exists (node_name nd); split; [exact HQ|exact Hd]).
     destruct nd as [nm m|nm m data|nm m target|nm m major minor]; cbn [node_name is_dir_node] in *; cbn [write_node].
-    - destruct (T_create_dir rs rs_ne rs_real nm Hd m st Hp I) as [C Q]. split; [exact (chain_safe rs _ _ BP C)|].
+    - destruct (T_create_dir rs rs_ne rs_real nm Hd m st Hp I) as [C Q]. split; [exact (chain_safe rs _ _ BP EPl C)|].
       intros E _. apply kind_dir_iff. exact (Q E).
-    - destruct (T_create_file rs rs_ne rs_real nm Hd m data st Hp I) as [C Q]. split; [exact (chain_safe rs _ _ BP C)|discriminate].
-    - destruct (T_create_symlink rs rs_ne rs_real nm Hd m target st Hp I) as [C Q]. split; [exact (chain_safe rs _ _ BP C)|discriminate].
-    - destruct (T_create_device rs rs_ne rs_real nm Hd m st Hp I) as [C Q]. split; [exact (chain_safe rs _ _ BP C)|discriminate].
+    - destruct (T_create_file rs rs_ne rs_real nm Hd m data st Hp I) as [C Q]. split; [exact (chain_safe rs _ _ BP EPl C)|discriminate].
+    - destruct (T_create_symlink rs rs_ne rs_real nm Hd m target st Hp I) as [C Q]. split; [exact (chain_safe rs _ _ BP EPl C)|discriminate].
+    - destruct (T_create_device rs rs_ne rs_real nm Hd m st Hp I) as [C Q]. split; [exact (chain_safe rs _ _ BP EPl C)|discriminate].
   Qed.
 
   Lemma opt_comp_real base : real_elem base -> opt_comp base = [base].
   Proof. intros [K _]. destruct base; [discriminate|reflexivity]. Qed.
 
   Lemma write_node_inv ds cs nd base dir' st :
-    ginv ds cs (w_fs st) -> node_shape ds cs nd base dir' ->
+    NameOk (node_name nd) -> ginv ds cs (w_fs st) -> node_shape ds cs nd base dir' ->
     safe st (fst (write_node o root nd st)) /\
     (snd (write_node o root nd st) = None ->
      exists cs', dir' = rel cs' /\ ginv (dstate_after Fixed ds nd base) cs' (w_fs (fst (write_node o root nd st)))).
   Proof.
-    intros (Fcs & Hinv) (Hleaf & cs0 & Hpre & F0 & Nb & Hb & Hname & Hdir).
+    intros HQ (Fcs & Hinv) (Hleaf & cs0 & Hpre & F0 & Nb & Hb & Hname & Hdir).
     destruct ds; [| |congruence].
     - (* Fresh: cs = [] *)
       destruct Hinv as (-> & Hp & NL). apply prefix_nil in Hpre. subst cs0. cbn [app] in *.
       destruct Nb as [->|Rb].
       + (* the nameless first entry *)
-        cbn [opt_comp] in *. destruct (write_root nd st Hname Hp) as [S Q]. split; [exact S|].
+        cbn [opt_comp] in *. destruct (write_root nd st HQ Hname Hp) as [S Q0]. split; [exact S|].
         intros E. exists []. split; [destruct (is_dir_node nd); exact Hdir|].
         split; [constructor|]. cbn [dstate_after]. destruct (is_dir_node nd) eqn:Dn; [|exact I].
-        rewrite app_nil_r. exact (Q E eq_refl).
+        rewrite app_nil_r. exact (Q0 E eq_refl).
       + (* a named first entry: the destination has to be a directory already *)
         rewrite (opt_comp_real base Rb) in *.
         assert (Eds : dstate_after Fixed Fresh nd base = Started) by (destruct base; [destruct Rb as [K _]; discriminate|reflexivity]).
@@ -395,8 +403,8 @@ Section Confine.
         { rewrite Hname. apply (dst_rel [base]). constructor; [exact Rb|constructor]. }
         destruct (not_link_cases rs (w_fs st) NL) as [HD|[Ln|(m0 & b0 & Lf)]].
         * rewrite <- (app_nil_r rs) in HD.
-          destruct (write_named [] nd base dir' st (Forall_nil _) Rb Hname Hdir HD) as [S Q]. split; [exact S|].
-          intros E. destruct (Q E) as (cs' & E1 & F1 & D1). exists cs'. split; [exact E1|]. split; assumption.
+          destruct (write_named [] nd base dir' st HQ (Forall_nil _) Rb Hname Hdir HD) as [S Q0]. split; [exact S|].
+          intros E. destruct (Q0 E) as (cs' & E1 & F1 & D1). exists cs'. split; [exact E1|]. split; assumption.
         * destruct (write_node_unresolvable nd st _ Hd) as [e ->].
           { intros f. apply resolve_below_absent; [exact rs_ne|discriminate|exact Fq|exact Hp|exact Ln]. }
           cbn [fst snd]. split; [apply safe_refl|discriminate].
@@ -408,22 +416,25 @@ Section Confine.
       rewrite (opt_comp_real base Rb) in *.
       assert (HD : is_dir_at (rs ++ cs0) (w_fs st)).
       { destruct Hpre as [t ->]. rewrite app_assoc in Hinv. exact (is_dir_at_prefix _ _ _ Hinv). }
-      destruct (write_named cs0 nd base dir' st F0 Rb Hname Hdir HD) as [S Q]. split; [exact S|].
-      intros E. destruct (Q E) as (cs' & E1 & F1 & D1). exists cs'. split; [exact E1|].
+      destruct (write_named cs0 nd base dir' st HQ F0 Rb Hname Hdir HD) as [S Q0]. split; [exact S|].
+      intros E. destruct (Q0 E) as (cs' & E1 & F1 & D1). exists cs'. split; [exact E1|].
       assert (Eds : dstate_after Fixed Started nd base = Started) by (destruct base; reflexivity).
       rewrite Eds. split; assumption.
   Qed.
 
   Lemma untar_loop_safe : forall fuel ds cs inp st,
+    (forall x, In x (nodes_loop fuel Fixed ds (rel cs) inp) -> NameOk (node_name (fst x))) ->
     ginv ds cs (w_fs st) ->
     safe st (fst (untar_loop fuel Fixed o root ds (rel cs) inp st)).
   Proof.
-    induction fuel as [|fuel IH]; intros ds cs inp st G; cbn [untar_loop]; [apply safe_refl|].
+    induction fuel as [|fuel IH]; intros ds cs inp st HQ G; cbn [untar_loop]; [apply safe_refl|].
+    cbn [nodes_loop] in HQ.
     destruct (archive_next Fixed ds (rel cs) inp) as [nd base dir' rest| |] eqn:E; cbn [fst]; try apply safe_refl.
     pose proof (archive_next_shape _ _ _ _ _ _ _ (proj1 G) E) as Sh.
-    destruct (write_node_inv ds cs nd base dir' st G Sh) as [S Q].
+    destruct (write_node_inv ds cs nd base dir' st (HQ (nd, base) (or_introl eq_refl)) G Sh) as [S Q0].
     destruct (write_node o root nd st) as [st' [e|]]; cbn [fst snd] in *; [exact S|].
-    destruct (Q eq_refl) as (cs' & -> & G'). eapply safe_trans; [exact S|]. now apply IH.
+    destruct (Q0 eq_refl) as (cs' & -> & G'). eapply safe_trans; [exact S|]. apply IH; [|exact G'].
+    intros x Hx. apply HQ. now right.
   Qed.
 
   Lemma untar_loop_fuel pol : forall fuel ds dir inp st,
@@ -438,6 +449,29 @@ End Confine.
 
 (* ---------- the theorems ---------- *)
 
+(* every place written is what the kernel makes of filepath.Join(root, Name) for the Name of a
+   node of the archive: the writer uses no other (temporary, partial, lock) names *)
+Theorem untar_writes_entry_paths : forall (o : opts) (rs : path) (elems : list elem) (fs : node),
+  rs <> [] -> Forall real_elem rs -> parent_ok rs fs -> not_link_at rs fs ->
+  let r := untar Fixed o (rootstr rs) elems fs in
+  Forall (fun p => beneath rs p = true /\
+                   exists nd base, In (nd, base) (nodes_of Fixed elems) /\
+                                   dst_of (rootstr rs) (node_name nd) = rootstr p)
+         (w_touched (fst r)) /\
+  (forall q, beneath rs q = false -> stat q (w_fs (fst r)) = stat q fs).
+Proof.
+  intros o rs elems fs Hne Fr Hp NL r. unfold r, untar.
+  set (Q := fun name => exists nd base, In (nd, base) (nodes_of Fixed elems) /\ node_name nd = name).
+  assert (G : ginv rs Fresh [] (w_fs (mkW fs []))).
+  { split; [constructor|]. cbn [w_fs]. auto. }
+  assert (HQ : forall x, In x (nodes_loop (S (length elems)) Fixed Fresh (rel []) elems) -> Q (node_name (fst x))).
+  { intros [nd base] Hx. exists nd, base. split; [exact Hx|reflexivity]. }
+  destruct (untar_loop_safe rs Hne Fr o Q (S (length elems)) Fresh [] elems (mkW fs []) HQ G) as [Fq [t [T A]]].
+  change (rel []) with dir0 in *. split; [|exact Fq].
+  cbn [w_touched app] in T. rewrite T. eapply Forall_impl; [|exact A].
+  intros p [B (name & (nd & base & Hin & <-) & Hd)]. split; [exact B|]. now exists nd, base.
+Qed.
+
 Theorem untar_confined : forall (o : opts) (rs : path) (elems : list elem) (fs : node),
   rs <> [] -> Forall real_elem rs -> parent_ok rs fs -> not_link_at rs fs ->
   let r := untar Fixed o (rootstr rs) elems fs in
@@ -445,14 +479,11 @@ Theorem untar_confined : forall (o : opts) (rs : path) (elems : list elem) (fs :
   (forall q, beneath rs q = false -> stat q (w_fs (fst r)) = stat q fs) /\
   snd r <> OutOfFuel.
 Proof.
-  intros o rs elems fs Hne Fr Hp NL r. unfold r, untar.
-  assert (G : ginv rs Fresh [] (w_fs (mkW fs []))).
-  { split; [constructor|]. cbn [w_fs]. auto. }
-  destruct (untar_loop_safe rs Hne Fr o (S (length elems)) Fresh [] elems (mkW fs []) G) as [Fq [t [T A]]].
-  change (rel []) with dir0 in *. split; [|split].
-  - cbn [w_touched app] in T. now rewrite T.
+  intros o rs elems fs Hne Fr Hp NL r.
+  destruct (untar_writes_entry_paths o rs elems fs Hne Fr Hp NL) as [A Fq]. split; [|split].
+  - eapply Forall_impl; [|exact A]. now intros p [B _].
   - exact Fq.
-  - apply untar_loop_fuel. lia.
+  - unfold r, untar. apply untar_loop_fuel; [exact (fun _ => True)|lia].
 Qed.
 
 (* the usual case: the destination exists and is a real directory *)
